@@ -218,7 +218,7 @@ def run(rep, tier, parts=("jit", "ctor", "interp", "cranelift")):
                    expected="buffer[data_offset..] := mem.as_ptr(), buffer[data_end_offset..] := mem.as_ptr() + mem.len(), unconditionally", found=found)
 
         # ---- interpreter r1 / r10 are decided under C01/R01.f; cite
-        ri = rep.rule("R09.i", "interpreter initial r1/r10 (shared with C01/R01.f) and legacy-load base == packet", floor=1)
+        ri = rep.rule("R09.i", "interpreter initial r1/r10 (shared with C01/R01.f) and legacy-load base == packet", floor=2)
         base_ok = True
         for v in (0x20, 0x28, 0x30, 0x38, 0x40, 0x48, 0x50, 0x58):
             for p in im.summary(v):
@@ -227,6 +227,10 @@ def run(rep, tier, parts=("jit", "ctor", "interp", "cranelift")):
                         base_ok = False
         rep.ob(ri, "legacy-base", base_ok and im.param_role.get("MEM") is not None, "legacy loads address the packet slice",
                expected="as_ptr(MEM) + ...", found=base_ok)
+        from props.c01 import _initial_state
+        oki, foundi = _initial_state(cx, im)
+        rep.ob(ri, "r1-r10", oki, "interpreter entry state: r1 = mbuff if non-empty else mem if non-empty else 0; r10 = top of the 512-byte stack",
+               expected="[0 x10, stack+len]; r1 by the mbuff / mem / 0 cascade", found=foundi)
 
     if "cranelift" in parts:
         # ---- Cranelift
